@@ -464,13 +464,15 @@ class Pristine:
                 return
             if req is None:
                 return
-            modname, fname, args = req
+            modname, fname, args = req[:3]
+            raw = len(req) > 3 and req[3]
             r, w = mp.Pipe(duplex=False)
             p = os.fork()
             if p == 0:
                 try:
                     fn = getattr(importlib.import_module(modname), fname)
-                    w.send(("ok", _jsonable_pair(fn(*args))))
+                    res = fn(*args)
+                    w.send(("ok", res if raw else _jsonable_pair(res)))
                 except BaseException as e:   # noqa
                     w.send(("error", "%s: %s" % (type(e).__name__, e)))
                 finally:
@@ -489,6 +491,14 @@ class Pristine:
         if status != "ok":
             raise RuntimeError("pristine replay failed: %s" % payload)
         return payload[0], payload[1]
+
+    def eval(self, fn, *args):
+        """fn(*args) in a fork of the pristine state; the (picklable) return value is passed back unchanged"""
+        self.conn.send((fn.__module__, fn.__name__, args, True))
+        status, payload = self.conn.recv()
+        if status != "ok":
+            raise RuntimeError("pristine evaluation failed: %s" % payload)
+        return payload
 
     def close(self):
         try:
@@ -512,6 +522,12 @@ def pristine_call(fn, *args):
     if PRISTINE is None:
         return fn(*args)
     return PRISTINE.call(fn, *args)
+
+
+def pristine_eval(fn, *args):
+    if PRISTINE is None:
+        return fn(*args)
+    return PRISTINE.eval(fn, *args)
 
 
 # ------------------------------------------------------------------ case scheduler
